@@ -99,6 +99,23 @@ def generate(rng, tier):
             lines = schema_lines(nschema) + ["X 0 0", "X 1 0", "PB 0 " + hx(host.replace(b"%s", arg)), "D 0", "D 1", "F 0", "F 1"]
             cases.append(Case("nest%d" % n, lines, {"k": None, "text": host, "nregs": 0, "nested": True}))
             n += 1
+    # callbacks registered by path AFTER instances of the section exist: every instance created later - a new title, the same
+    # title again (which replaces), an untitled one more, the re-created single section - runs them; so does a by-name setter
+    lschema = [Opt("m", "sec", gen.MULTI | gen.TITLE, None, "-", [Opt("x", "int", 0, 0), Opt("s", "str", 0, None)]),
+               Opt("n", "sec", gen.MULTI, None, "-", [Opt("x", "int", 0, 0)]), Opt("one", "sec", 0, None, "-", [Opt("x", "int", 0, 0)]), Opt("i", "int", 0, 0)]
+    first = b"m a { x = 1 }\nn { x = 2 }\none { x = 3 }\n"
+    regs_l = [["VF 0 %s v" % hx("m|x")], ["VF 0 %s v" % hx("n|x")], ["VF 0 %s v" % hx("one|x")], ["VF 0 %s w" % hx("m|x"), "VF 0 %s w" % hx("n|x")],
+              ["VF 0 %s v" % hx("m|x"), "VF 0 %s v" % hx("m|s"), "VF 0 %s v" % hx("n|x"), "VF 0 %s v" % hx("one|x"), "VF 0 %s v" % hx("i")]]
+    laters = [b"m b { x = 666 }\ni = 1\n", b"m a { x = 666 }\ni = 2\n", b"n { x = 666 }\ni = 3\n", b"one { x = 666 }\ni = 4\n", b"m c { s = bad }\n",
+              b"m b { x = 5 } m c { x = 6 } n { x = 7 }\ni = 666\n"]
+    for rg in regs_l:
+        for lt in laters:
+            for pre in ([first], [], [first, b"m z { }\n"]):
+                lines = schema_lines(lschema) + ["X 0 0"] + ["PB 0 " + hx(t) for t in pre] + rg + ["PB 0 " + hx(lt), "D 0",
+                         "AT 0 %s %s" % (hx("m"), hx("late")), "SI 0 %s 0 -4" % hx("m=late|x"), "SI 0 %s 0 5000" % hx("m=late|x"), "SI 0 %s 0 -4" % hx("m=a|x"),
+                         "RS 0 %s" % hx("one"), "PB 0 " + hx(b"one { x = 666 }\n"), "D 0", "F 0"]
+                cases.append(Case("late%d" % n, lines, {"k": None, "text": lt, "nregs": len(rg)}))
+                n += 1
     # the same for value-parsing callbacks: the token text handed to the callback (the scanner's buffer for an unquoted
     # word, its scratch string for a quoted one) must survive a scan the callback starts itself
     pschema = [Opt("i", "int", 0, 0), Opt("s", "str", 0, b"d", "p"), Opt("n", "int", 0, 1, "p"), Opt("sl", "str", LIST, None, "p"),
